@@ -600,8 +600,10 @@ Definition get_del (f : fault) (s : store) (c : cache) (n : nat) (sid u : N) (si
 (* replyDelMsg + messagesMapper.DeleteList *)
 Definition del_msg (f : fault) (s : store) (c : cache) (n : nat) (sid u : N) (req : list (Z * Z)) (hard0 : bool) : hres :=
   let mode := user_mode c u in
-  if negb (is_deleter mode) && negb (is_reader mode) then mkH s c n [(sid, Ctrl 403 [])] else
+  (* the hard flag is decided first (it needs D, otherwise the request silently becomes soft);
+     every soft deletion needs R *)
   let hard := hard0 && is_deleter mode in
+  if negb hard && negb (is_reader mode) then mkH s c n [(sid, Ctrl 403 [])] else
   match del_ranges (c_lastid c) req with
   | None => mkH s c n [(sid, Ctrl 400 [])]
   | Some ranges =>
